@@ -153,6 +153,36 @@ def model_explains_optimiser(ctx, spec, seq):
     return 'out' in out and [norm_mut(x) for x in r1['out']] == out['out']
 
 
+def model_predicts_difference(ctx, spec, seq):
+    """does the Lean model (optimiser, then `simulate`) say that running the optimised list ends differently
+    from running the sequence one mutation at a time - another signature, or one of the two rejected?  The
+    optimiser findings of C03 (F20/F24/F60) explain a batched-only difference only where it does."""
+    if not ctx.driver:
+        return True
+    try:
+        sig = sigs.sig_from_spec(spec)
+        existing = [m['name'] for a in spec['apps'] if a['id'] == 'vapp' for m in a['models']]
+        orig = [norm_mut(sigs.model_mutation(m)) for m in seq]
+        out = ctx.driver.ask([{'op': 'optimize', 'existing': existing,
+                               'copies': bool(ctx.variant.get('optimizer_copies')), 'mutations': orig}])[0]
+        if out is None:
+            return True
+        if 'out' not in out:
+            return True         # the model of the optimiser itself gives up on the sequence
+        flags = {'rename_app_label_fixed': bool(ctx.variant.get('rename_app_label_fixed'))}
+        base = {'op': 'simulate', 'sig': sigs.abs_sig(sig), 'ctx': {'app': 'vapp'}, 'flags': flags}
+        a, b = ctx.driver.ask([dict(base, mutations=orig), dict(base, mutations=out['out'])])
+    except Exception:
+        return True
+    if a is None or b is None:
+        return True
+    if ('ok' in a) != ('ok' in b):
+        return True
+    if 'ok' not in a:
+        return a.get('err') != b.get('err')
+    return sigs.norm_sig(a['ok'], True, True) != sigs.norm_sig(b['ok'], True, True)
+
+
 def norm_mut(mj):
     mj = {k: v for k, v in mj.items() if k not in ('py_value', 'sql', 'model_name_attr')}
     return mj
